@@ -13,6 +13,7 @@ import (
 // ---- values
 type Val interface{}
 type Nil struct{}
+type Str string
 type Arr struct{ Elems []Val }
 type Obj struct{ Pairs map[string]Val }
 type Clo struct {
@@ -54,6 +55,8 @@ func Inspect(v Val) (string, error) {
 		return fmt.Sprint(x), nil
 	case Nil:
 		return "nil", nil
+	case Str:
+		return fmt.Sprintf("%q", string(x)), nil
 	case *Arr:
 		var p []string
 		for _, e := range x.Elems {
@@ -542,6 +545,26 @@ func (m *Machine) eval(e Expr, fr *Frame) (Val, error) {
 		case "\\_":
 			k, _ := fr.get(specialKw)
 			return k, nil
+		case "\\_.keys", "\\_.values", "\\_.items":
+			// the keyword arguments received by this call, listed in key order however they were passed
+			k, _ := fr.get(specialKw)
+			var ks []string
+			for n := range k.(*Obj).Pairs {
+				ks = append(ks, n)
+			}
+			sort.Strings(ks)
+			out := &Arr{}
+			for _, n := range ks {
+				switch x.Kind {
+				case "\\_.keys":
+					out.Elems = append(out.Elems, Str(n))
+				case "\\_.values":
+					out.Elems = append(out.Elems, k.(*Obj).Pairs[n])
+				default:
+					out.Elems = append(out.Elems, &Arr{Elems: []Val{Str(n), k.(*Obj).Pairs[n]}})
+				}
+			}
+			return out, nil
 		case "\\name":
 			k, _ := fr.get(specialKw)
 			if v, ok := k.(*Obj).Pairs[x.Name]; ok {
